@@ -670,6 +670,15 @@ class Exec:
             if re.search(pat, fn):
                 key = self.pure[pat] if isinstance(self.pure, dict) else (re.sub(r"<.*", "", fn) if not fn.startswith("<") else fn)
                 return pure_fn(key, len(argv))(*argv) if argv else pure_fn(key, 0)()
+        if getattr(self, "auto_inline_local", False) and not re.search(r"^<|^std::|^core::|^alloc::", fn):
+            # a function of the crate under analysis that no model covers: execute it from its own MIR
+            last = re.sub(r"::<.*?>$", "", fn).split("::")[-1]
+            owner = re.sub(r"::<.*?>$", "", fn).split("::")[-2] if "::" in fn else None
+            cands = [f for n, f in self.mir.functions.items() if re.search(r"(^|::)%s$" % re.escape(last), n) and len(f.args) == len(argv) and not n.startswith("const ")]
+            if len(cands) > 1 and owner:
+                cands = [f for f in cands if owner in f.sig or owner in f.name]
+            if len(cands) == 1 and cands[0].name not in getattr(self, "no_auto_inline", ()):
+                return ("inline", cands[0], argv)
         v = fresh(re.sub(r"<[^<>]*>", "", fn).split("::")[-1] or "call")
         if dst_type == "bool":
             p.pc.append(z3.Or(asint(v) == 0, asint(v) == 1))
